@@ -344,20 +344,36 @@ func (c20) Eval(c *Case) (*Violation, bool) {
 			return &Violation{Signature: "unreadable-table", Msg: err.Error(), Detail: ow.Stdout}, false
 		}
 		// A/L value per commodity and date from the balance
-		val := map[string][]float64{}
-		total := make([]float64, len(bt.Dates))
+		// (summed exactly: positions of 1e10 that cancel would leave a float residue
+		// that looks like a holding)
+		dval := map[string][]decimal.Decimal{}
+		dtotal := make([]decimal.Decimal, len(bt.Dates))
+		anyCell := make([]bool, len(bt.Dates)) // some A/L cell is non-zero on that date
 		for _, row := range bt.Rows {
 			if row.Section != "AL" || row.Com == "" {
 				continue
 			}
-			if val[row.Com] == nil {
-				val[row.Com] = make([]float64, len(bt.Dates))
+			if dval[row.Com] == nil {
+				dval[row.Com] = make([]decimal.Decimal, len(bt.Dates))
 			}
 			for i, v := range row.Vals {
-				f, _ := v.Float64()
-				val[row.Com][i] += f
-				total[i] += f
+				dval[row.Com][i] = dval[row.Com][i].Add(v)
+				dtotal[i] = dtotal[i].Add(v)
+				if !v.IsZero() {
+					anyCell[i] = true
+				}
 			}
+		}
+		val := map[string][]float64{}
+		total := make([]float64, len(bt.Dates))
+		for com, vs := range dval {
+			val[com] = make([]float64, len(bt.Dates))
+			for i, v := range vs {
+				val[com][i], _ = v.Float64()
+			}
+		}
+		for i, v := range dtotal {
+			total[i], _ = v.Float64()
 		}
 		colOf := map[string]int{}
 		for i, d := range bt.Dates {
@@ -466,14 +482,8 @@ func (c20) Eval(c *Case) (*Violation, bool) {
 		// a date on which the balance shows no holding at all: nothing has a share
 		for i, h := range hdr {
 			bi := colOf[h]
-			held := false
-			for _, v := range val {
-				if v[bi] != 0 {
-					held = true
-				}
-			}
-			if held {
-				continue
+			if anyCell[bi] {
+				continue // positions that cancel are still positions
 			}
 			for _, r := range rows {
 				if w, ok := pct(r.Cells[i]); ok && !(math.Abs(w) <= 1e-9) {
@@ -497,7 +507,9 @@ func (c20) Eval(c *Case) (*Violation, bool) {
 						members++
 					}
 				}
-				if !(math.Abs(own[key][i]-want) <= 1e-6*float64(members+1)+1e-7/math.Abs(total[bi])) {
+				// weights are ill-conditioned when large positions nearly cancel: an error of
+				// 1e-8 per valued posting in the total is magnified by |weight| / |total|
+				if !(math.Abs(own[key][i]-want) <= 1e-6*float64(members+1)+(math.Abs(want)+1)*1e-7/math.Abs(total[bi])) {
 					sig := "wrong-weight"
 					if members > 1 {
 						sig = "group-not-sum-of-members"
@@ -625,7 +637,8 @@ func (c20) Eval(c *Case) (*Violation, bool) {
 					continue // the very first period holds the funding
 				}
 				want := (tot[order[g]]/tot[order[g-1]] - 1) * 100
-				if !(math.Abs(l.p-want) <= 0.06+1e-9*math.Abs(want)) {
+				// a start value close to zero (a leveraged book) magnifies the 1e-8 truncations of the valued balance
+				if !(math.Abs(l.p-want) <= 0.06+(math.Abs(want)+200)*1e-6/math.Abs(tot[order[g-1]])+1e-9*math.Abs(want)) {
 					return &Violation{Signature: "wrong-return", Msg: fmt.Sprintf("period ending %s: %.1f%%, end value / start value - 1 = %.3f%%", l.d, l.p, want), Detail: fmt.Sprintf("argv: %v\n%s\n%s", argv, or.Stdout, of.Stdout)}, false
 				}
 			}
